@@ -113,6 +113,11 @@ def _create(cfg):
         p, _ = ref_path(cfg, wt, 0, 0, 0)
         acc = bip32.derive(ref_master(cfg), p[:3])
         w = Wallet.create('w', keys=acc.ser(nets.hd_prefix(net, False, wt, False), False), **kw)
+    elif cfg['origin'] == 'acc_xprv':
+        # restored from the PRIVATE account key m/purpose'/coin'/0' (not the master): can sign, cannot leave the account
+        p, _ = ref_path(cfg, wt, 0, 0, 0)
+        acc = bip32.derive(ref_master(cfg), p[:3])
+        w = Wallet.create('w', keys=acc.ser(nets.hd_prefix(net, True, wt, False), True), **kw)
     else:
         raise ValueError(cfg['origin'])
     wh.close(w, None, remove=False)
@@ -178,11 +183,17 @@ def _do(w, ev, cfg):
                 ks = [w.key_for_path([ev[2], ev[3]], account_id=a)]
                 explicit.add((w.witness_type, a, ev[2], ev[3]))
             for k in ks:
-                if k.account_id != a or ("/%d'/" % a) not in k.path:
+                if k.account_id != a or (("/%d'/" % a) not in k.path and not (
+                        cfg['origin'] in ('watch', 'acc_xprv') and a == 0)):
                     raise _WrongAccount('%s returned a key of account %s (path %s) for requested account %d' % (
                         kind, k.account_id, k.path, a))
         elif kind == 'new_key_otherwt':
             w.new_key(witness_type=_other_wt(cfg['wt']))
+        elif kind == 'get_keys_otherwt':
+            w.get_keys(witness_type=_other_wt(cfg['wt']), number_of_keys=2)
+        elif kind == 'public_master':
+            # a query: exporting the account public key must leave the wallet's own (cached) keys as they were
+            w.public_master()
         elif kind == 'mark_used':
             ks = w.keys(depth=w.key_depth, change=0, used=False)
             if ks:
@@ -228,7 +239,14 @@ def sub_hist(case):
         label = 'init'
         for ev in hist:
             before = set(rows)
-            w, label, explicit = _do(w, ev, cfg)
+            try:
+                w, label, explicit = _do(w, ev, cfg)
+            except Exception as e:
+                # neither an answer nor a refusal (WalletError): the wallet breaks on this request
+                devs.append({'sig': 'event_raises_unexpected_exception|%s|%s' % (ev[0], type(e).__name__),
+                             'detail': {'exc': repr(e)[:300], 'hist': hist,
+                                        'cfg': {k: v for k, v in cfg.items() if k != 'events'}}})
+                return {'devs': devs, 'ret': {'state': ['broken', tag, len(hist)], 'enabled': []}, 'out': 'raises'}
             explicit_all |= explicit
             if label.startswith('wrong_account:'):
                 devs.append({'sig': 'key_of_another_account_returned|%s' % ev[0], 'detail': {'what': label[14:]}})
@@ -268,7 +286,7 @@ def sub_hist(case):
                 devs.append({'sig': 'unknown_witness_type_row', 'detail': {'row': str(key)}})
                 continue
             n_checked += 1
-            if cfg['origin'] == 'watch':
+            if cfg['origin'] in ('watch', 'acc_xprv'):
                 exp_path = 'M/%d/%d' % (chg, idx)
             elif cfg['origin'] == 'cosigner_pub' or cfg.get('multisig'):
                 exp_path = pstr
@@ -309,6 +327,10 @@ def sub_hist(case):
             d['detail']['hist'] = hist
             d['detail']['cfg'] = {k: v for k, v in cfg.items() if k != 'events'}
         state = sorted((str(k), v[3]) for k, v in rows.items())
+        # in-memory key objects the wallet derives further keys from: part of the state (a query that strips them
+        # has different futures although the stored rows are the same)
+        state.append(('cached_private', sorted((str(i), bool(getattr(ko, 'is_private', None)))
+                                               for i, ko in getattr(w, '_key_objects', {}).items())))
         return {'devs': devs, 'ret': {'state': state, 'enabled': cfg['events']}, 'out': label, 'n': max(1, n_checked)}
     finally:
         wh.close(w, path)
@@ -322,12 +344,13 @@ SUBS = {'hist': sub_hist}
 
 EV_FULL = [['new_key'], ['new_key_change'], ['get_key'], ['get_key_change'], ['get_keys2'], ['new_keys3'],
            ['path_gap', 0, 7], ['path_gap', 0, 3], ['path_gap', 1, 2], ['new_account'], ['new_key_acc1'], ['new_key_otherwt'],
-           ['mark_used'], ['reopen']]
+           ['get_keys_otherwt'],
+           ['mark_used'], ['public_master'], ['reopen']]
 EV_SMALL = [['new_key'], ['new_key_change'], ['get_key'], ['get_keys2'], ['path_gap', 0, 5], ['path_gap', 0, 2],
-            ['mark_used'],
+            ['mark_used'], ['public_master'],
             ['new_account'], ['reopen']]
 EV_WATCH = [['new_key'], ['new_key_change'], ['get_key'], ['get_keys2'], ['new_keys3'], ['path_gap', 0, 7],
-            ['path_gap', 0, 4],
+            ['path_gap', 0, 4], ['new_key_acc', 1], ['new_key_otherwt'],
             ['mark_used'], ['reopen']]
 EV_MS = [['new_key'], ['new_key_change'], ['get_key'], ['get_keys2'], ['mark_used'], ['reopen']]
 
@@ -350,7 +373,14 @@ def run(ctx):
     add('mnemonic', 'bitcoin', 'segwit', EV_SMALL)
     add('xprv', 'bitcoin', 'legacy', EV_SMALL)
     add('watch', 'bitcoin', 'segwit', EV_WATCH)
+    # a private key below the master: requests that need the master (another witness type, another account) must
+    # be refused, never answered with some other key
+    add('acc_xprv', 'bitcoin', 'segwit', [['new_key'], ['new_key_change'], ['get_key'], ['get_keys2'], ['new_key_otherwt'],
+                                          ['get_keys_otherwt'], ['new_key_acc', 1], ['get_key_acc', 0], ['new_account'],
+                                          ['public_master'], ['mark_used'], ['reopen']])
     add('seed', 'litecoin', 'p2sh-segwit', EV_SMALL)
+    # networks whose extended-key prefixes are shared by several witness types: bulk requests, reduced alphabet
+    add('seed', 'litecoin', 'segwit', [['get_keys2'], ['new_keys3'], ['new_key_change'], ['get_key'], ['reopen']])
     add('seed', 'testnet', 'legacy', EV_SMALL)
     add('seed', 'dogecoin', 'legacy', EV_SMALL)
     add('cosigner_all', 'bitcoinlib_test', 'segwit', EV_MS, multisig=[2, 3])
